@@ -10,6 +10,17 @@ import (
 	"github.com/jeroenrinzema/psql-wire/pkg/buffer"
 )
 
+// vSymText0 is vSymText that may also be empty (an explicitly empty
+// decoration: the outermost value is "", so the field must be absent).
+func vSymText0(max int) []byte {
+	b := nondetBytes(vChoose(max + 1))
+	vAssume(vNoNUL(b))
+	if len(b) == 0 {
+		return []byte{}
+	}
+	return b
+}
+
 func vSymText(max int) []byte {
 	b := nondetBytes(1 + vChoose(max))
 	vAssume(vNoNUL(b))
@@ -64,10 +75,10 @@ func VerifH17() {
 			}
 			err = psqlerr.WithSeverity(err, psqlerr.Severity(string(sev)))
 		case 3:
-			hint = vSymText(2)
+			hint = vSymText0(2)
 			err = psqlerr.WithHint(err, string(hint))
 		case 4:
-			detail = vSymText(2)
+			detail = vSymText0(2)
 			err = psqlerr.WithDetail(err, string(detail))
 		case 5:
 			file = vSymText(1)
@@ -83,7 +94,7 @@ func VerifH17() {
 			hasSrc = true
 			err = psqlerr.WithSource(err, string(file), ln, string(fn))
 		case 6:
-			constraint = vSymText(2)
+			constraint = vSymText0(2)
 			err = psqlerr.WithConstraintName(err, string(constraint))
 		case 7:
 			err = fmt.Errorf("w: %w", err)
@@ -102,11 +113,11 @@ func VerifH17() {
 
 	expect := func(label string, fcode byte, want []byte, dflt string) {
 		got, present := vErrField(m.body, fcode)
-		if want == nil && dflt == "" {
+		if len(want) == 0 && dflt == "" {
 			vAssert(label+"-absent", !present)
 			return
 		}
-		if want == nil {
+		if len(want) == 0 {
 			want = []byte(dflt)
 		}
 		vAssert(label+"-present", present)
@@ -130,17 +141,17 @@ func VerifH17() {
 	if hasSrc {
 		vReach("source-decorated")
 	}
-	if hint != nil && detail != nil {
+	if len(hint) > 0 && len(detail) > 0 {
 		vReach("hint-and-detail")
 	}
-	if constraint != nil {
+	if len(constraint) > 0 {
 		vReach("constraint")
 	}
 }
 
 func vAssertKexpect(label string, body []byte, fcode byte, want []byte) {
 	got, present := vErrField(body, fcode)
-	if want == nil {
+	if len(want) == 0 {
 		vAssert(label+"-absent", !present)
 		return
 	}
